@@ -3,6 +3,7 @@
 package verifchecks
 
 import (
+	"encoding/json"
 	"errors"
 	"fmt"
 	"os"
@@ -110,6 +111,97 @@ func genPolicy(rt *rapid.T, opt wgOptions, label string) kit.PolicySpec {
 	return spec
 }
 
+// derivePolicy copies prev and applies one small edit.
+func derivePolicy(rt *rapid.T, prev kit.PolicySpec, label string, classes map[string]bool) kit.PolicySpec {
+	var spec kit.PolicySpec
+	b, _ := json.Marshal(prev)
+	if err := json.Unmarshal(b, &spec); err != nil {
+		panic(err)
+	}
+	f := spec.Targets
+	resign := func() {
+		// delegated files are signed by the threshold of the delegating rule's principals
+		main := f.Rules[0]
+		if df, ok := spec.Delegated["protect-main"]; ok {
+			df.Signers = nil
+			for _, pi := range main.Principals[:main.Threshold] {
+				df.Signers = append(df.Signers, f.Principals[pi].Keys[0])
+			}
+			spec.Delegated["protect-main"] = df
+			if d2, ok := spec.Delegated["main-team"]; ok {
+				r := df.Rules[0]
+				d2.Signers = nil
+				for _, pi := range r.Principals[:r.Threshold] {
+					d2.Signers = append(d2.Signers, df.Principals[pi].Keys[0])
+				}
+				spec.Delegated["main-team"] = d2
+			}
+		}
+	}
+	kinds := []string{"main-drop", "main-add", "main-threshold"}
+	if _, ok := spec.Delegated["protect-main"]; ok {
+		kinds = append(kinds, "delegated-only", "delegated-only", "delegated-only")
+	}
+	kind := rapid.SampledFrom(kinds).Draw(rt, label+"edit")
+	switch kind {
+	case "main-drop":
+		r := &f.Rules[0]
+		if len(r.Principals) > 1 {
+			i := rapid.IntRange(0, len(r.Principals)-1).Draw(rt, label+"drop")
+			r.Principals = append(append([]int{}, r.Principals[:i]...), r.Principals[i+1:]...)
+			if r.Threshold > len(r.Principals) {
+				r.Threshold = len(r.Principals)
+			}
+		}
+	case "main-add":
+		r := &f.Rules[0]
+		in := map[int]bool{}
+		for _, pi := range r.Principals {
+			in[pi] = true
+		}
+		for pi := range f.Principals {
+			if !in[pi] {
+				r.Principals = append(r.Principals, pi)
+				break
+			}
+		}
+	case "main-threshold":
+		r := &f.Rules[0]
+		r.Threshold = rapid.IntRange(1, min(3, len(r.Principals))).Draw(rt, label+"newthr")
+	case "delegated-only":
+		// root and primary rule file stay byte-identical
+		df := spec.Delegated["protect-main"]
+		r := &df.Rules[0]
+		if len(df.Principals) > 1 && rapid.Bool().Draw(rt, label+"ddrop") {
+			// the delegatee drops its last principal
+			df.Principals = df.Principals[:len(df.Principals)-1]
+		} else {
+			// ... or replaces one by another developer
+			have := map[int]bool{}
+			for _, p := range df.Principals {
+				have[p.Keys[0]] = true
+			}
+			var free []int
+			for k := 0; k <= 7; k++ {
+				if !have[k] {
+					free = append(free, k)
+				}
+			}
+			i := rapid.IntRange(0, len(df.Principals)-1).Draw(rt, label+"dswap")
+			df.Principals[i] = keyPrin(rapid.SampledFrom(free).Draw(rt, label+"dnew"))
+		}
+		r.Principals = indices(len(df.Principals))
+		if r.Threshold > len(df.Principals) {
+			r.Threshold = len(df.Principals)
+		}
+		spec.Delegated["protect-main"] = df
+		classes["policy_change_delegated_file_only"] = true
+	}
+	resign()
+	classes["policy_derived_"+kind] = true
+	return spec
+}
+
 // wgState tracks the abstract state while generating events.
 type wgState struct {
 	w        *kit.World
@@ -128,6 +220,13 @@ func genWorld(rt *rapid.T, opt wgOptions, classes map[string]bool) kit.World {
 		opt.delegShape = rapid.SampledFrom([]int{0, 0, 0, 1, 1, 2}).Draw(rt, "delegshape")
 	}
 	for i := 0; i < npol; i++ {
+		// later states are either drawn afresh or derived from their predecessor by
+		// one small edit (the usual way a key loses or gains authority), including
+		// edits that touch nothing but a delegated rule file
+		if i > 0 && rapid.Bool().Draw(rt, fmt.Sprintf("p%dderived", i)) {
+			w.Policies = append(w.Policies, derivePolicy(rt, w.Policies[i-1], fmt.Sprintf("p%d", i), classes))
+			continue
+		}
 		w.Policies = append(w.Policies, genPolicy(rt, opt, fmt.Sprintf("p%d", i)))
 	}
 	g := &wgState{w: &w, lastPush: map[string]int{}, everKeys: map[int]bool{}}
@@ -281,6 +380,31 @@ func (g *wgState) genPush(rt *rapid.T, class string, classes map[string]bool) {
 			ev.Signer = -1
 		case "unknown":
 			ev.Signer = wgUnknownKey
+		case "deauthorized":
+			// a key an earlier policy state authorised for this ref and the one in force does not
+			now := map[int]bool{}
+			for _, r := range rules {
+				for _, p := range r.Principals {
+					now[p.Keys[0]] = true
+				}
+			}
+			var was []int
+			for pi := 0; pi < g.pol; pi++ {
+				for _, r := range kit.Consulted(&w.Policies[pi], "git:"+ref) {
+					for _, p := range r.Principals {
+						if !now[p.Keys[0]] {
+							was = append(was, p.Keys[0])
+						}
+					}
+				}
+			}
+			was = uniqInts(was)
+			if len(was) > 0 {
+				ev.Signer = rapid.SampledFrom(was).Draw(rt, "deauthkey")
+				classes["deauthorized_signer"] = true
+			} else {
+				ev.Signer = rapid.IntRange(0, 8).Draw(rt, "anykey")
+			}
 		default:
 			ev.Signer = rapid.IntRange(0, 8).Draw(rt, "anykey")
 		}
